@@ -118,6 +118,10 @@ def cases(tier, seed):
             nstatements = (1 if b[0] else 0) + (1 if b[1] is not None else 0) + len(b[2])
             for split in range(1, nstatements):
                 out.append(("blocks", split, b))
+            if b[2] and (b[0] or b[1] is not None):
+                out.append(("blocks", -1, b))  # follow-ups first; conclusion and refinement in the second block
+                if b[0] and b[1] is not None:
+                    out.append(("blocks", -2, b))  # follow-ups and conclusion first; refinement in the second block
     return out
 
 
@@ -203,6 +207,11 @@ def build_and_run(block, two_vars=False, style=None, split=None):
         i, has_c, ref, fol = nb
         statements = ([("conclusion",)] if has_c else []) + ([("refinement", ref)] if ref is not None else []) \
             + [(kind, fb) for kind, fb in fol]
+        if split < 0:
+            # the root's own conclusion and refinement are written LAST, in the second block, after the follow-ups
+            statements = [(kind, fb) for kind, fb in fol] + ([("conclusion",)] if has_c else []) \
+                + ([("refinement", ref)] if ref is not None else [])
+            split = len(fol) if split == -1 else len(fol) + (1 if has_c else 0)
 
         def write(st):
             if st[0] == "conclusion":
@@ -238,7 +247,10 @@ def run_case(block):
     k = rdr.size(block)
     text = "\n".join(["with query(c0):"] + ["    " + l for l in rdr.show(block)])
     if split is not None:
-        text = f"[written in two `with query:` blocks, the second one starts with root-level statement #{split + 1}]\n" + text
+        how = (f"the second one starts with root-level statement #{split + 1}" if split > 0 else
+               "first the follow-ups, then - in the second block - the root's conclusion and refinement" if split == -1 else
+               "first the follow-ups and the root's conclusion, then - in the second block - the root's refinement")
+        text = f"[written in two `with query:` blocks: {how}]\n" + text
     if style:
         text = f"[conditions written as: {', '.join('c%d=%s' % (i, STYLES[style](i)) for i in range(k))}]\n" + text
     try:
